@@ -396,6 +396,34 @@ theorem escLoop_never_runs_out_of_fuel (pat ep : Bytes) : escLoop (pat.length + 
 theorem matchChunk_never_runs_out_of_fuel (chunk s : Bytes) : matchChunk chunk.length chunk s false ≠ .fuel :=
   matchChunk_no_fuel _ _ _ _ (Nat.le_refl _)
 
+/-! ## matcher sets (`{"host": […], "path": […]}` as configured in JSON / produced by the Caddyfile adapter) -/
+
+/-- a set with a host and a path matcher is their conjunction (after Provision's duplicate check) -/
+theorem matcherSet_is_conjunction (thr : Nat) (hosts pats : List Bytes) (rhost p e : Bytes)
+    (hnd : hasDup (hosts.map lower) = false) :
+    setCase thr hosts pats rhost p e =
+      .res (hosts.any (entryMatches (canonHost rhost)) && pathCase pats p e) := by
+  unfold setCase
+  rw [hostCase_canon, hnd]
+  rfl
+
+/-- **a matcher set, too, depends only on the canonical host and the cleaned forms of the path** -/
+theorem matcherSet_depends_only_on_canonical_request (thr : Nat) (hosts pats : List Bytes)
+    (h h' p e p' e' : Bytes) (hh : canonHost h = canonHost h')
+    (hp : ∀ m, cleanPathMode m (lower p) = cleanPathMode m (lower p'))
+    (he : ∀ m, cleanPathMode m (lower e) = cleanPathMode m (lower e')) :
+    setCase thr hosts pats h p e = setCase thr hosts pats h' p' e' := by
+  unfold setCase
+  rw [matchHost_depends_only_on_canonical_host thr hosts h h' hh,
+    matchPath_depends_only_on_clean_forms pats p e p' e' hp he]
+
+/-- order and number of entries of either matcher of the set never matter -/
+theorem matcherSet_perm_invariant (thr : Nat) (hosts hosts' pats pats' : List Bytes) (h p e : Bytes)
+    (h1 : hosts.Perm hosts') (h2 : pats.Perm pats') :
+    setCase thr hosts pats h p e = setCase thr hosts' pats' h p e := by
+  unfold setCase
+  rw [matchHost_perm_invariant thr hosts hosts' h h1, matchPath_perm_invariant pats pats' p e h2]
+
 /-! ## MatchPathRE -/
 
 /-- the expression only ever sees the cleaned path -/
@@ -464,5 +492,8 @@ example : pathCase [[47, 97, 37, 50, 102, 98, 47, 106]] [47, 65, 47, 98, 47, 74]
 -- a non-ASCII request host (U+017F `ſ`, bytes C5 BF) against a "large" list
 example : asciiOnly (stripPort [197, 191, 46, 99, 111, 109]) = false := by decide
 example : hostCase 2 [[115, 46, 99, 111, 109], [98, 46, 116, 101, 115, 116], [42, 46, 99, 46, 116, 101, 115, 116]] [197, 191, 46, 99, 111, 109] = .res false := by decide
+
+example : setCase 2 [[69, 120, 97, 109, 112, 108, 101, 46, 99, 111, 109], [98, 46, 116, 101, 115, 116], [42, 46, 99, 46, 116, 101, 115, 116]] [[47, 97, 112, 105, 47, 42]] [69, 88, 65, 77, 80, 76, 69, 46, 99, 111, 109, 58, 56, 48] [47, 65, 80, 73, 47, 47, 118, 49, 47, 46, 47, 120, 47, 46, 46, 47, 117, 115, 101, 114, 115] [47, 65, 80, 73, 47, 47, 118, 49, 47, 46, 47, 120, 47, 46, 46, 47, 117, 115, 101, 114, 115] = .res true := by decide
+example : setCase 2 [[69, 120, 97, 109, 112, 108, 101, 46, 99, 111, 109], [98, 46, 116, 101, 115, 116], [42, 46, 99, 46, 116, 101, 115, 116]] [[47, 97, 112, 105, 47, 42]] [120, 46, 121] [47, 65, 80, 73, 47, 47, 118, 49, 47, 46, 47, 120, 47, 46, 46, 47, 117, 115, 101, 114, 115] [47, 65, 80, 73, 47, 47, 118, 49, 47, 46, 47, 120, 47, 46, 46, 47, 117, 115, 101, 114, 115] = .res false := by decide
 
 end CaddyModel.C06
